@@ -113,6 +113,40 @@ theorem perm_sortBy (lt : α → α → Bool) (l : List α) : (sortBy lt l).Perm
     rw [this]
     exact (perm_insertBy lt z _).trans (List.Perm.cons z ih)
 
+/-! ### CPython's small-list sort: a permutation too -/
+
+theorem perm_binInsert (lt : α → α → Bool) (sorted : List α) (pivot : α) :
+    (binInsert lt sorted pivot).Perm (pivot :: sorted) := by
+  simp only [binInsert]
+  have h := List.take_append_drop (binSearch lt sorted pivot (sorted.length + 1) 0 sorted.length) sorted
+  exact List.perm_middle.trans (List.Perm.cons pivot (by rw [h]))
+
+theorem perm_foldl_binInsert (lt : α → α → Bool) (rest run : List α) :
+    (rest.foldl (binInsert lt) run).Perm (run ++ rest) := by
+  induction rest generalizing run with
+  | nil => simp
+  | cons x xs ih =>
+    simp only [List.foldl_cons]
+    refine (ih (binInsert lt run x)).trans ?_
+    refine (List.Perm.append_right xs (perm_binInsert lt run x)).trans ?_
+    simp only [List.cons_append]
+    exact List.perm_middle.symm
+
+theorem perm_pySort (lt : α → α → Bool) (l : List α) : (pySort lt l).Perm l := by
+  simp only [pySort]
+  refine (perm_foldl_binInsert lt _ _).trans ?_
+  have h := List.take_append_drop (countRun lt l).1 l
+  split
+  · refine (List.Perm.append_right _ (List.reverse_perm _)).trans ?_
+    rw [h]
+  · rw [h]
+
+theorem mem_pySort (lt : α → α → Bool) (y : α) (l : List α) : y ∈ pySort lt l ↔ y ∈ l :=
+  (perm_pySort lt l).mem_iff
+
+theorem length_pySort (lt : α → α → Bool) (l : List α) : (pySort lt l).length = l.length :=
+  (perm_pySort lt l).length_eq
+
 /-! ### one absorbing pass -/
 
 /-- number of non-empty sets -/
